@@ -31,7 +31,7 @@ def run_driver(binp, home, lines, crash=None, timeout=300, prefix=None):
     except subprocess.TimeoutExpired:
         return {"status": "timeout"}
     out = []
-    for l in r.stdout.decode("utf-8", "replace").splitlines():
+    for l in r.stdout.decode("utf-8", "replace").split("\n"):
         try:
             out.append(json.loads(l))
         except Exception:
